@@ -80,7 +80,9 @@ func c04Mutants(rng *rand.Rand, base, other *accountant.Vertex, foreign *ledger.
 		if sameSignedFields(&m, base) {
 			return // identity: not a mutation
 		}
-		if class == "trx.receiver_signature/emptied" {
+		if strings.HasPrefix(class, "trx.receiver_signature/") && len(m.Transaction.ReceiverSignature) == 0 && len(base.Transaction.ReceiverSignature) > 0 {
+			// whatever the mutation was called (emptied, truncated to nothing, swapped with a vertex that has none): the
+			// receiver's signature was taken off, the class of the listed finding
 			class = "receiver-signature-stripped"
 		}
 		out = append(out, mutant{m, class, desc})
